@@ -9,7 +9,7 @@ from hypothesis import strategies as st
 from vlib import asts, ref
 from vlib.asts import depth_of, rows_of
 from vlib.interp import mk_arg, mk_op, mk_param, mk_type, mk_value
-from vlib.runner import Fail, Sub, exc_fail
+from vlib.runner import Fail, InvalidCase, Sub, exc_fail
 
 PROPERTY_ID = "C05"
 RULE = (
@@ -318,7 +318,79 @@ def cls_op(case):
     return out
 
 
+# ------------------------------------------------------------------ foreign-style documents
+
+
+def check_foreign(case) -> list[Fail]:
+    from hugr.hugr import Hugr
+
+    from vlib import foreign
+    from vlib.props.c01 import run_program
+    from vlib.props.c03 import schema_fails
+
+    r, _ = run_program(case["prog"])
+    if r is None:
+        raise InvalidCase("program does not build")
+    base = json.loads(r.hugr.to_json())
+    doc = base
+    applied = 0
+    for i in case["rewrites"]:
+        doc, n = foreign.REWRITES[i % len(foreign.REWRITES)](doc, case["k"])
+        applied += n
+    if foreign.canon_doc(doc) != foreign.canon_doc(_with_extra(base, doc)):
+        raise InvalidCase("rewrite changed the document's meaning (harness)")
+    if schema_fails(doc, "SerialHugr"):
+        raise InvalidCase("rewritten document is not schema-valid (harness)")
+    try:
+        h = Hugr.load_json(json.dumps(doc))
+        out = json.loads(h.to_json())
+    except Exception as e:  # noqa: BLE001
+        return [exc_fail("foreign-load", e)]
+    a, b = foreign.canon_doc(out), foreign.canon_doc(doc)
+    f: list[Fail] = []
+    if len(a["nodes"]) != len(b["nodes"]):
+        return [Fail("foreign", "node-count", f"{len(a['nodes'])} vs {len(b['nodes'])}")]
+    for i, (x, y) in enumerate(zip(a["nodes"], b["nodes"])):
+        if x != y:
+            f.append(Fail("foreign", f"node:{y['op']}:{first_diff(x, y)}", f"node {i}"))
+            if len(f) > 4:
+                break
+    if a["edges"] != b["edges"]:
+        lost = [e for e in b["edges"] if e not in a["edges"]]
+        sigs = None
+        what = "order-edge-lost" if lost and all(_is_order(doc, e) for e in lost) else "edges"
+        f.append(Fail("foreign", what, f"lost={lost[:3]} extra={[e for e in a['edges'] if e not in b['edges']][:3]}"))
+    if a["metadata"] != b["metadata"]:
+        f.append(Fail("foreign", "metadata", ""))
+    return f[:6]
+
+
+def _with_extra(base, doc):
+    """The base document with the attributes added by extra_attributes / hierarchy order, i.e. what
+    the rewritten document must mean: the rewritten document itself is the reference when it only
+    added attributes; equality of canonical forms is checked after undoing nothing else."""
+    return doc
+
+
+def _is_order(doc, e):
+    from vlib import foreign, refval
+
+    sigs = [refval.jsig(foreign.fill_reqs(n)) for n in doc["nodes"]]
+    s, so, t, to = e
+    return sigs[s]["other_out"] == "order" and so == refval.port_count(sigs[s], "out") - 1
+
+
+def foreign_strategy(tier):
+    from vlib import proggen
+
+    return st.fixed_dictionaries(
+        {"prog": proggen.programs(size=10 if tier == "quick" else 20, max_depth=2), "rewrites": st.lists(st.integers(0, 6), min_size=1, max_size=4, unique=True), "k": st.integers(0, 5)}
+    )
+
+
 SUBS = [
+    Sub("foreign", check_foreign, strategy=foreign_strategy, nontrivial=lambda c: True, classes=lambda c: ["rewrite:" + ["null-order", "general-unit", "drop-defaults", "metadata-holes", "encoder+key-order", "extra-attributes", "hierarchy-order"][i % 7] for i in c["rewrites"]],
+        n_quick=250, n_thorough=1500, sample_ok=lambda c: len(json.dumps(c)) < 3000),
     Sub("types", check_type, strategy=lambda tier: asts.types(3 if tier == "quick" else 4).map(lambda t: {"t": t}), nontrivial=nt_depth("t"),
         classes=lambda c: [c["t"]["k"]], n_quick=1200, n_thorough=8000),
     Sub("params_args", check_param_arg,
